@@ -8,8 +8,7 @@ import readmodel as rm
 
 PROP = "C09"
 MODEL_TARGETS = ["Corr/ReadShow.vo"]
-THEOREMS = ["C09_blank_header", "C09_comment_header", "C09_blank_data", "C09_comment_data", "C09_strip_padding",
-            "C09_crlf_lines", "C09_final_newline", "C09_rewrap_tokens", "C09_compose"]
+THEOREMS = ["C09_blank_header", "C09_comment_header", "C09_skipped_header", "C09_blank_data", "C09_comment_data", "C09_sniff_skipped", "C09_sniff_blank", "C09_sniff_comment", "C09_skipped_data", "C09_strip_padding", "C09_strip_idempotent", "C09_strip_blank", "C09_padding_map", "C09_padding_header", "C09_padding_sections", "C09_padding_other", "C09_padding_data", "C09_padding_read", "C09_crlf_strip", "C09_crlf_lines", "C09_crlf_read", "C09_final_newline", "C09_final_newline_read", "C09_tokens_of_lines", "C09_rewrap_tokens", "C09_rewrap_data", "C09_rewrap_data_clean", "C09_rewrap_read", "C09_rewrap_clean_lines", "C09_rewrap_width", "C09_redelimit_space", "C09_redelimit_space_fields", "C09_redelimit_comma", "C09_blocks", "C09_skip_read", "C09_compose", "C09_compose_list", "C09_step_read", "C09_compose_read"]
 ASSUMPTIONS = [
     "transformations are applied to files inside the modelled fragment (LAS 1.2/2.0, default read options)",
     "~Other keeps blank lines (they are content), so blank/comment insertion is not claimed there",
@@ -220,6 +219,29 @@ def oracle(base_text, new_text):
     return None
 
 
+INSERTS = ["", "   ", "# a comment", "   # indented comment", "\t# tab-indented comment", "#", "  # 1 2 3 4 5 6 7 8"]
+
+
+def systematic(rng, text, meta, n):
+    """one blank/comment line at the first or last position of a section, for every kind of section and
+    every kind of inserted line (sampled): the sites random composition reaches only rarely"""
+    lines = text.split("\n")
+    final_nl = lines and lines[-1] == ""
+    if final_nl:
+        lines = lines[:-1]
+    secs = [s for s in split_sections(lines) if s[0] != "O" and s[0] != ""]
+    if meta.get("dlm") not in (None, "SPACE"):
+        pass                        # comment/blank lines in delimited data are skipped before splitting as well
+    out = []
+    combos = [(s, ins, where) for s in secs for ins in INSERTS for where in ("first", "last")]
+    rng.shuffle(combos)
+    for s, ins, where in combos[:n]:
+        pos = s[1] + 1 if where == "first" or not s[2] else s[2][-1] + 1
+        new = lines[:pos] + [ins] + lines[pos:]
+        out.append(("\n".join(new) + ("\n" if final_nl else ""), ["insert %r as %s line of ~%s" % (ins, where, s[0])]))
+    return out
+
+
 def run(ctx):
     res = lib.Result()
     rng = ctx.rng
@@ -232,8 +254,8 @@ def run(ctx):
             meta, base_canon = file_meta(text)
         except Exception:
             continue
-        for _ in range(per):
-            new, notes = transform(rng, text, meta)
+        variants = [transform(rng, text, meta) for _ in range(per)] + systematic(rng, text, meta, 8 if ctx.thorough else 3)
+        for new, notes in variants:
             if not notes:
                 continue
             bad = oracle(text, new)
